@@ -223,7 +223,10 @@ func oneOp(ps *poolsim.PS, r *mon.Rand, allowChainOps bool) {
 		var txs []*wire.MsgTx
 		for _, d := range v.Descs {
 			tx := d.Tx.MsgTx()
-			ok := true
+			// after a reorganisation the pool may hold re-inserted block transactions whose relative locks were met
+			// on the old branch only (the property's minability clause is conditional on the chain not having moved
+			// backwards): such a pool is not mined from by the harness either
+			ok := ps.MinableOK
 			for _, in := range tx.TxIn {
 				if _, unconf := v.Descs[in.PreviousOutPoint.Hash]; unconf {
 					ok = false
